@@ -184,8 +184,19 @@ package task
 //@   site (*Executor).startExecution#1 requires arg2 == fullTask && arg1 == ctx                        [C06,C03]
 
 //@ ghost var promptDeclined bool scratch
+//@ ghost var depsErr error scratch
+//@ ghost var depsExit bool scratch
 //@ func (*Executor).RunTask$1
 //@   implements taskBody
+// a failing command of a dependency makes the run of the task that was asked for a failed run (error class
+// 201, the command's own status with --exit-code), exactly like a failure of its own commands
+//@   init depsErr := nil
+//@   init depsExit := false
+//@   site (*Executor).runDeps#1 ghost depsErr := result
+//@   site IsExitStatus#1 requires arg0 == depsErr                                                      [C03]
+//@   site IsExitStatus#1 ghost depsExit := result.1
+//@   ensures depsErr != nil ==> result != nil                                                          [C01,C03]
+//@   ensures depsErr != nil && depsExit && !call.Indirect ==> dyn(result) == type(*errors.TaskRunError) && as(result, type(*errors.TaskRunError)).Err == depsErr   [C03]
 //@   init promptDeclined := false
 //@   site (*Logger).Prompt#1 ghost promptDeclined := result != nil
 //@   loop 1 invariant !promptDeclined
@@ -208,7 +219,7 @@ package task
 //@        cmdOK(t, j) || (t.IgnoreError && cmdExitFail(t, j))                                          [C03,C13,C07]
 //@   site (*Executor).runCommand#1 ghost set cmdSettled(t, $i)
 //@   site (*Executor).runCommand#1 ghost set cmdOK(t, $i) if result == nil
-//@   site IsExitStatus#1 ghost set cmdExitFail(t, $i) if result.1
+//@   site IsExitStatus#2 ghost set cmdExitFail(t, $i) if result.1
 //@   site (*Executor).runDeferred#1 ghost set deferRegistered(t, $i)
 //@   loop 2 invariant forall j {cmdSettled(t, j)} :: 0 <= j && j < $i && !t.Cmds[j].Defer ==> cmdSettled(t, j)   [C02]
 //@   loop 2 invariant forall j {cmdOK(t, j)} :: 0 <= j && j < $i && !t.Cmds[j].Defer ==>
@@ -220,8 +231,8 @@ package task
 //@   ensures result == nil ==> precondsOK(call)   -- forced or not          [C13]
 //@   init sawExit := false
 //@   init sawCode := 0
-//@   site IsExitStatus#1 ghost sawExit := result.1 && !t.IgnoreError
-//@   site IsExitStatus#1 ghost sawCode := result.0
+//@   site IsExitStatus#2 ghost sawExit := result.1 && !t.IgnoreError
+//@   site IsExitStatus#2 ghost sawCode := result.0
 //@   ensures result != nil && sawExit ==> deferredExitCode == sawCode                                 [C14]
 
 //@ func (*Executor).runCommand
